@@ -25,7 +25,7 @@ CONFIG = {
 }
 
 MANIFEST = {
-    "text": "Theorems over a Gallina model of the j5s converter's field core (buildProperty/buildField/setJ5Ext/resolveType/ensureImport) for every abstract field: no Go panic site (SetExtension with a wrong Go type or extendee, reflection copy in setJ5Ext, nil result dereference, ensureImport on a bad path) is reachable; a file holding one property never fails to link and every extension set has its defining file among the ensured imports; everything in the documented language except two recorded combinations is accepted, and rejections happen only outside it and record an error. For declarations of unbounded size (model/CmpbDecls.v, induction over the lists): a top-level enum with any number of options, with or without info, is accepted and links alone; a service with any number of methods and no list request never panics, always links, and is accepted when in the language; with a list request it panics (refutation = recorded finding). The SetExtension call sites, extension Go types/extendees/files, import constants and the descriptor tables setJ5Ext copies between are regenerated from /repo on every run and checked by computed lemmas. The tie runs the full isolation matrix and generated enums/services alone in a file (every field type x rule kind x wrapper in a file with nothing else) through the real compiler and compares verdict, imports and extensions with the model; declaration matrix, random bytes, token mutations and semantic-error files go through Compile, LintFile and LintAll under recover() in a crash-isolated child, checking that every error leaf carries a position inside a source file.",
+    "text": "Theorems over a Gallina model of the j5s converter's field core (buildProperty/buildField/setJ5Ext/resolveType/ensureImport) for every abstract field: no Go panic site (SetExtension with a wrong Go type or extendee, reflection copy in setJ5Ext, nil result dereference, ensureImport on a bad path) is reachable; a file holding one property never fails to link and every extension set has its defining file among the ensured imports; everything in the documented language except two recorded combinations is accepted, and rejections happen only outside it and record an error. For declarations of unbounded size (model/CmpbDecls.v, induction over the lists): a top-level enum with any number of options, with or without info, is accepted and links alone; a service with any number of methods and no list request never panics, always links, and is accepted when in the language; with a list request it panics (refutation = recorded finding); topics of every type and object/oneof shells are accepted and link alone. The field types and their rule/list-rule/ext/format parts are the schema descriptors' (regenerated; agreement lemma with a reviewed ignored list), and every field type has a converter arm. The SetExtension call sites, extension Go types/extendees/files, import constants and the descriptor tables setJ5Ext copies between are regenerated from /repo on every run and checked by computed lemmas. The tie runs the full isolation matrix and generated enums/services alone in a file (every field type x rule kind x wrapper in a file with nothing else) through the real compiler and compares verdict, imports and extensions with the model; declaration matrix, random bytes, token mutations and semantic-error files go through Compile, LintFile and LintAll under recover() in a crash-isolated child, checking that every error leaf carries a position inside a source file.",
     "note": "Proved for the converter's decision core; partial for the property as a whole: the BCL walker, entity/service/topic expansion and package loading are explored, not modelled; lexer/parser totality is C11. Refuted parts are recorded findings (float rules, informal key + list rules, list_request panic, link-stage and package-loading errors without a source position, LintFile reporting under the generated file name). Trusted: Coq kernel; the go/types translator; the correspondence harness; protocompile and protobuf-go behaviour as modelled. All C07 theorems are closed under the global context (no axioms).",
     "technique": "Rocq/Coq proof (complete enumeration of a finite abstract field space with a completeness lemma, vm_compute) + regenerated call-site/extension/descriptor tables with computed agreement lemmas + in-Coq differential correspondence on the full isolation matrix + direct oracle on malformed and semantic-error streams",
 }
